@@ -50,7 +50,39 @@ func checkC07(run *Run, res *Result) {
 	// (under one common vbUUID) a persisted seqno >= s. Once covered, always covered.
 	coveredUpTo := map[vbKey]uint64{}
 	everCovered := map[vbKey]bool{}
-	recompute := func(m, vb int) {
+	// The client learns a new cluster map one CCCP poll plus one config-watch round after the node changed it;
+	// until then gating under the previous map is all it can do (only relevant when a copy was added).
+	// "Listed in the cluster map" is judged against the map revisions the member's DCP agent has been given
+	// (streaming config pushes, journalled as config-sent): a revision counts from the moment it was sent; the
+	// previous one stays acceptable for one config-watch round plus one observe round after that (mapGrace).
+	// (With observe faults a round in progress - retries with back-off - delays the switch to the new map further.)
+	mapGrace := int64(4_000_000_000)
+	if run.Cfg.Faults {
+		mapGrace = 20_000_000_000
+	}
+	mapsByRev := map[int64][][]int{}
+	type revAt struct {
+		rev int64
+		t   int64
+	}
+	clientRevs := map[int][]revAt{} // member -> revisions sent to its DCP agent, in order
+	var recomputeWith func(m, vb int, vm [][]int)
+	recompute := func(m, vb int, now int64) {
+		revs := clientRevs[m]
+		if len(revs) == 0 {
+			recomputeWith(m, vb, vbmap)
+			return
+		}
+		for i, r := range revs {
+			// revision i was the client's map until revision i+1 was sent; it stays acceptable for mapGrace after that
+			if i == len(revs)-1 || now-revs[i+1].t < mapGrace {
+				if vm, ok := mapsByRev[r.rev]; ok {
+					recomputeWith(m, vb, vm)
+				}
+			}
+		}
+	}
+	recomputeWith = func(m, vb int, vbmap [][]int) {
 		if vbmap == nil || vb >= len(vbmap) {
 			return
 		}
@@ -103,8 +135,17 @@ func checkC07(run *Run, res *Result) {
 		e := &run.Evs[i]
 		k := vbKey{e.M, e.Vb}
 		switch e.K {
+		case journal.KNote:
+			if e.S == "config-sent" && (e.S2 == "d" || e.S2 == "http") {
+				if revs := clientRevs[e.M]; len(revs) == 0 || revs[len(revs)-1].rev != e.I {
+					clientRevs[e.M] = append(revs, revAt{e.I, e.T})
+					res.probe("cluster-map-revision-reached-the-client")
+				}
+			}
 		case "vbmap":
+			vbmap = nil
 			_ = json.Unmarshal(e.Raw, &vbmap)
+			mapsByRev[e.I] = vbmap
 			if e.I > 1 {
 				mapBumps++
 			}
@@ -132,7 +173,7 @@ func checkC07(run *Run, res *Result) {
 			}
 			reps[e.I] = obsRep{uuid: e.U, persisted: e.U2, have: true}
 			reports[k] = reps
-			recompute(e.M, e.Vb)
+			recompute(e.M, e.Vb, e.T)
 			refresh(e.T)
 		case journal.KFault:
 			if strings.HasPrefix(e.S, "err:") {
